@@ -1375,6 +1375,26 @@ def allocator_state_ok(env, buf, live, what):
     return ok
 
 
+def pickle_again_ok(env, group, buf, read):
+    """pickling is not a one-shot operation: the same objects can be pickled again (the originals, their buffer and
+    its context are left as they were), and the original context still makes buffers"""
+    try:
+        again = env.pickle_roundtrip(group)
+    except BaseException as ex:
+        if not isinstance(ex, Exception):
+            raise
+        return env.check(False, f"C20 pickling the same objects a second time raised {type(ex).__name__}: {str(ex)[:80]}")
+    ok = read(again)
+    try:
+        nb = buf.context.new_buffer(64)
+        ok = env.check(nb is not None and nb is not buf, "C20 the originals' context still makes buffers after pickling") and ok
+    except BaseException as ex:
+        if not isinstance(ex, Exception):
+            raise
+        ok = env.check(False, f"C20 the originals' context still makes buffers after pickling: raised {type(ex).__name__}: {str(ex)[:80]}") and ok
+    return ok
+
+
 def sc_c20(env, t, v, cfg):
     """pickle round trip of a group of objects sharing one buffer (the object, a second object of the same type,
     and an Int64 array), at any placement / after growth"""
@@ -1396,6 +1416,7 @@ def sc_c20(env, t, v, cfg):
         env.reach()
         return
     env.no_stores_since(m0, "C20 pickling does not modify the originals' buffer")
+    pickle_again_ok(env, group, buf, lambda cs: read_ok(env, t, cs[0], B.exp, "C20 a second pickling of the same objects gives the same value again"))
     env.check(c1._buffer is not buf, "C20 the unpickled object lives in a buffer of its own (independent of the original's)")
     env.check(c1._buffer is c2._buffer and c1._buffer is cn._buffer, "C20 objects pickled together that shared a buffer still share one")
     read_ok(env, t, c1, B.exp, "C20 the unpickled object has the same value at every field")
